@@ -156,6 +156,9 @@ class Engine:
         self.pump_exc = None
         self.origin = {}
         self._keep = []
+        self.sent_kind = []   # parallel to sent: "direct" (reply of a line's logic job) | "spawned"
+        self.job_is_logic = True
+        self.depth = 0
         self.pre_logic = None    # hook(origin_step, data) -> token
         self.post_logic = None   # hook(token, origin_step, data, reply, exc)
         self.hook_error = None
@@ -220,6 +223,7 @@ class Engine:
             if message:
                 o = eng.cur_origin if eng.cur_origin is not None else eng.step
                 eng.sent.append((eng.step, o, message))
+                eng.sent_kind.append("direct" if eng.job_is_logic else "spawned")
             return orig_send(message)
 
         t.send = send
@@ -257,6 +261,20 @@ class Engine:
                     eng.attrib_ok = False
 
             tasks.add_job = add_job
+        else:
+            def add_job_async(func, *args):
+                # the asyncio flavour runs jobs inline: the outermost job is the line's logic() call,
+                # anything it adds while running is a spawned job
+                eng.depth += 1
+                prev = eng.job_is_logic
+                eng.job_is_logic = eng.depth == 1
+                try:
+                    return orig_add(func, *args)
+                finally:
+                    eng.depth -= 1
+                    eng.job_is_logic = prev if eng.depth else True
+
+            tasks.add_job = add_job_async
 
     # -- the pump -----------------------------------------------------------
     def drain(self, max_jobs=None):
@@ -268,6 +286,10 @@ class Engine:
         while tasks.queue and (max_jobs is None or n < max_jobs):
             job = tasks.queue[0]
             self.cur_origin = self.origin.get(id(job), self.step)
+            try:
+                self.job_is_logic = getattr(job[0], "__name__", "") == "logic"
+            except Exception:
+                self.job_is_logic = True
             try:
                 reply = tasks.run_job()
                 tasks.transport.send(reply)
